@@ -10,12 +10,15 @@ func verifHarness_C14_routerRepeat() {
 	r := New(EnableCaching)
 	r.GET(pat, verifNop)
 	p := verifNormalPath("p", verifParam("L"))
+	empty := r.cachedRoutes.Len()
 	got, _, _ := r.QuickMatch("GET", p)
 	if got == nil {
 		return
 	}
-	verifAssert(r.cachedRoutes.Has("GET"+p), "the entry for exactly this method and path is cached after a dynamic match")
+	// stated behaviourally (independent of the key's spelling): the match stored one
+	// entry, and the immediate repeat is answered from it without storing another
 	before := r.cachedRoutes.Len()
+	verifAssert(empty == 0 && before == 1, "a dynamic match stores exactly one entry")
 	got2, _, _ := r.QuickMatch("GET", p)
 	verifAssert(got2 != nil, "the repeat is answered")
 	verifAssert(got2 != got, "the repeat is answered from the cache (a cached copy, not the table's route)")
